@@ -15,7 +15,7 @@ from mc.props import c01
 from mc.props.common import call, scratch_dir
 
 FMTS = c01.FMTS
-OVERRIDES = ("none", "min-below", "max-above", "both")
+OVERRIDES = ("none", "min-below", "max-above", "both", "narrow-min", "narrow-max")
 
 
 def expected(tg, blanks, fmin, fmax):
@@ -49,6 +49,19 @@ def check(case):
     for ov in OVERRIDES:
         omin = tg.minTimestamp - 1.0 if ov in ("min-below", "both") else None
         omax = tg.maxTimestamp + 1.0 if ov in ("max-above", "both") else None
+        if ov.startswith("narrow"):
+            # a legal narrowing override: inside the unlabelled stretch before the first / after the last entry of any tier
+            times = [v for t in tg.tiers for e in t.entries for v in e[:-1]]
+            if not times:
+                continue
+            if ov == "narrow-min":
+                if not min(times) > tg.minTimestamp:
+                    continue
+                omin = (tg.minTimestamp + min(times)) / 2
+            else:
+                if not max(times) < tg.maxTimestamp:
+                    continue
+                omax = (tg.maxTimestamp + max(times)) / 2
         fmin = tg.minTimestamp if omin is None else omin
         fmax = tg.maxTimestamp if omax is None else omax
         for blanks in (True, False):
@@ -190,7 +203,7 @@ def parts(tier):
     NUM = D.NUM_QUICK if quick else D.num_thorough()
     return [
         InputPart("labels", lambda: c01.layer_labels(L, 0 if quick else 2), check,
-                  rule="every label over the 7-symbol alphabet up to length %d in 4 positions; each case = 4 overrides x "
+                  rule="every label over the 7-symbol alphabet up to length %d in 4 positions; each case = 6 overrides (none, widening min/max/both, narrowing min/max into unlabelled edge stretches) x "
                        "includeBlankSpaces x 4 formats written and decoded independently" % L,
                   bounds={"label_length": L}, snippet=c01._snippet, chunk=8),
         InputPart("numbers", lambda: c01.layer_numbers(NUM), check,
